@@ -28,7 +28,9 @@ ASSUMPTIONS = [
 L = AutowareLabel
 POS = [(1.0, 0.5), (4.9, 1.9), (5.1, 1.9), (4.9, 2.1), (-4.9, -1.9), (-5.1, 0.0), (9.9, 0.0), (10.1, 0.0), (0.0, -2.1), (1.4, 1.4), (1.5, 1.5), (7.0, 7.2)]
 LABS = [("CAR", "car", []), ("CAR", "car", ["ign"]), ("CAR", "vehicle.ign_car", []), ("PEDESTRIAN", "pedestrian", []), ("UNKNOWN", "unknown", []),
-        ("UNKNOWN", "unknown", ["ign"]), ("FP", "false_positive", []), ("BUS", "bus", [])]
+        ("UNKNOWN", "unknown", ["ign"]), ("FP", "false_positive", []), ("BUS", "bus", []),
+        # attributes that merely CONTAIN the ignored key (an attribute is ignored when it IS the key; a name when it contains it)
+        ("CAR", "car", ["partially_ign", "design"]), ("PEDESTRIAN", "pedestrian", ["ign_not"])]
 _SEED = [0]
 
 
@@ -74,12 +76,15 @@ def units(tier, seed):
     frames = FRAMES if tier == "quick" else FRAMES + ["map3"]
     for fr in frames:
         for li in range(len(LABS)):
+            if li >= 8 and fr not in ("ego_notf", "map1"):
+                continue   # the attribute-substring variants are frame independent: two frame kinds
             u.append(dict(kind="object", frame=fr, lab=li))
     for k in range(8):
         u.append(dict(kind="lists", chunk=[k, 8], kmax=2 if tier == "quick" else 3))
     for k in range(4):
         u.append(dict(kind="results", chunk=[k, 4]))
     u.append(dict(kind="manager"))
+    u.append(dict(kind="tilt"))
     u.append(dict(kind="reuse"))
     u.append(dict(kind="long"))
     return u
@@ -153,6 +158,13 @@ def run_unit(unit, acc):
                 for g in (None, (e + 1) % len(pool)):
                     for scores in ([0.95, 0.05, 0.7], [0.05, 0.95, 0.7], [0.55, 0.45, 0.05]):
                         check_case(dict(kind="results", pairs=[[e, g], [e, None], [(e + 2) % len(pool), None]], scores=scores, seed=seed), acc)
+    elif unit["kind"] == "tilt":
+        # map-frame objects under an ego pose with pitch and roll (ego on a ramp): the planar distance is the one in the ego's own frame
+        for ei in range(len(TILT_EGOS)):
+            for pos in TILT_POS:
+                for lab in (LABS[0], LABS[3], LABS[4]):
+                    for is_gt in (False, True):
+                        check_case(dict(kind="tilt", ego=ei, spec=_spec(pos, lab, 0.9, 5, "u1"), is_gt=is_gt, seed=seed), acc)
     elif unit["kind"] == "long":
         for fr in ("base_link", "map"):
             for is_gt in (False, True):
@@ -169,6 +181,10 @@ def run_unit(unit, acc):
         for sel in itertools.combinations(range(len(pool)), 3):
             for fr in ("base_link", "map"):
                 check_case(dict(kind="manager", sel=list(sel), frame=fr, seed=seed), acc)
+
+
+TILT_EGOS = [(10.0, -5.0, 8.0, 0.7, 0.14, -0.05), (-30.0, 12.0, -3.0, -2.2, -0.2, 0.1)]
+TILT_POS = [(10.55, 0.0), (10.4, 0.0), (5.03, 0.0), (0.0, 5.04), (-7.9, 1.5), (-8.1, 0.2), (4.9, 1.9), (7.0, 7.2), (1.02, 0.0), (0.0, -2.03)]
 
 
 def _pool():
@@ -225,6 +241,33 @@ def check_case(case, acc):
             acc.outcome((kept, want))
         if acc.cases % 2003 == 1:
             acc.sample(case)
+    elif k == "tilt":
+        import numpy as np
+        from mc.ref import geom as _g
+        from perception_eval.common.schema import FrameID
+        from perception_eval.common.transform import TransformDict
+        ego = TILT_EGOS[case["ego"]]
+        sp = case["spec"]
+        obj = G.mk3d(sp)
+        pm = np.array(_g.pose_matrix(*ego)) @ np.array([sp["x"], sp["y"], 0.0, 1.0])
+        obj.frame_id = FrameID.MAP
+        obj.state.position = (float(pm[0]), float(pm[1]), float(pm[2]))
+        tf = TransformDict(G.ego2map_matrix(ego))
+        cfgs = [c for c in CFGS if c.get("max_d") and not c.get("conf") and not c.get("uuids") and not c.get("ignore_attributes")]
+        for ci, c in enumerate(cfgs):
+            want, margin = RF.keep(sp, case["is_gt"], c)
+            if margin < RF.BOUNDARY:
+                acc.skip("boundary")
+                continue
+            acc.exec()
+            got = filter_objects([obj], case["is_gt"], transforms=tf, **_kwargs(c))
+            acc.compared()
+            kept = len(got) == 1 and got[0] is obj
+            if kept != want:
+                acc.violation("tilt:%s" % ("kept-should-drop" if kept else "dropped-should-keep"), "map-frame %s at ego-relative (%.2f, %.2f) under the tilted ego pose %s is %s, "
+                              "the documented criteria say %s (config %s)" % ("ground truth" if case["is_gt"] else "estimate", sp["x"], sp["y"], ego, "kept" if kept else "dropped",
+                                                                           "keep" if want else "drop", {a: b for a, b in c.items() if b is not None}), dict(case, cfg_index=ci))
+            acc.state(("tilt", case["ego"], sp["label"], case["is_gt"], ci, kept), nontrivial=margin != float("inf"))
     elif k == "reuse":
         from mc.ref import geom
         egos = G.ego_menu(seed)
